@@ -84,7 +84,7 @@ def mutate(rng, c):
     extra = []
     if kind == "unknown":
         names = {x["name"] for x in fields}
-        cand = [u for u in ["--zzz", "--unknown_opt", "--qq.x", "-Z", "--no"] if not any(("--" + n).startswith(u) or ("-" + n) == u for n in names)]
+        cand = [u for u in ["--zzz", "--unknown_opt", "--qq.x", "-Z", "--nx"] if not any(("--" + n).startswith(u) or ("-" + n) == u for n in names)]
         u = rng.choice(cand)
         extra = [u] + rng.choice([[], ["1"], ["x"]])
         argv = c02.render(fields, asg2, order, eq)
@@ -100,7 +100,7 @@ def mutate(rng, c):
     argv_segments = {}
     for o, e in zip(order, eq):
         argv_segments[o] = c02.render(fields, {o: asg2[o]}, [o], [e])
-    seg = argv_segments[nm]
+    seg = argv_segments.get(nm, [])
     opt = ("-" if len(nm) == 1 else "--") + nm
     if kind == "illtyped":
         bad = rng.choice(GARBAGE[inner["k"]])
@@ -150,10 +150,13 @@ def gen_engine_case(rng):
     names = rng.sample(["a", "ab", "abc", "a_b", "a-b", "x", "xy", "x.y", "lr", "lrate", "n", "5"], n)
     table = [{"opts": ["-h", "--help"], "dest": "help", "kind": "help", "nargs": 0, "conv": {"k": "str"}, "choices": None,
               "required": False, "default": None}]
+    used_short = set()
     for nm in names:
         opts = [("-" if len(nm) == 1 else "--") + nm]
-        if rng.random() < 0.2 and len(nm) > 1:
-            opts.append("-" + nm[0].upper())
+        short = "-" + nm[0].upper()
+        if rng.random() < 0.2 and len(nm) > 1 and short not in used_short:
+            used_short.add(short)
+            opts.append(short)
         conv = rng.choice(["int", "float", "str", "str", "bool"])
         nargs = rng.choice([None, None, "?", "*", "+", 1, 2, 3])
         choices = None
@@ -170,7 +173,7 @@ def gen_engine_case(rng):
             default = {"int": {"t": "int", "v": "3"}, "float": {"t": "float", "v": "0.5"}, "str": {"t": "str", "v": "dflt"},
                        "bool": {"t": "bool", "v": True}}[conv]
             required = False
-        table.append({"opts": opts, "dest": nm.replace("-", "_").replace(".", "_"), "kind": "store", "nargs": nargs,
+        table.append({"opts": opts, "dest": "d_" + nm.replace("-", "D").replace(".", "P"), "kind": "store", "nargs": nargs,
                       "conv": {"k": conv}, "choices": choices, "required": required, "default": default})
     all_opts = [o for a in table for o in a["opts"]]
     toks = []
